@@ -34,12 +34,12 @@ def level_filter(ctx):
         if isinstance(n, ast.For) and call_attr(n.iter) == 'items' and isinstance(n.target, ast.Tuple) and len(n.target.elts) == 2:
             if isinstance(n.target.elts[1], ast.Name):
                 levvars.add(n.target.elts[1].id)
-    tests = [n for n in cfg.nodes if n.kind == 'test' and 'levelno' in src(n.ast)]
+    tests = [n for n in cfg.nodes if n.kind == 'test' and isinstance(n.ast, ast.expr) and 'levelno' in src(resolved(n.ast, h.node))]
     for c in sends:
         ids = set(cfg.node_of(c))
         verdict = None
         for t in tests:
-            ops = compare_ops(t.ast)
+            ops = compare_ops(resolved(t.ast, h.node))
             if len(ops) != 1:
                 continue
             l, op, r = ops[0]
@@ -73,9 +73,18 @@ def off_removes(ctx):
     ctx.analysed(f)
     cfg = CFG(f.node, m, f.module)
     offtests = [n for n in cfg.nodes if n.kind == 'test' and any(op in ('==', '!=') and 'OFF' in (l, r) for l, op, r in compare_ops(n.ast))]
-    pops = [c for c in calls_in(f.node) if call_attr(c) in ('pop',) and c.args and src(c.args[0]) == 'conn']
+    from sa.lib import deep_calls
+    # (the removal may live in a helper method: the call of the helper stands for it)
+    pops = [site for c, o, site in deep_calls(m, f, lambda c: call_attr(c) in ('pop',) and c.args and src(c.args[0]) == 'conn')]
     dels = [n for n in body_walk(f.node) if isinstance(n, ast.Delete) and any(isinstance(t, ast.Subscript) and src(t.slice) == 'conn' for t in n.targets)]
     stores = [n for n in body_walk(f.node) if isinstance(n, ast.Subscript) and isinstance(n.ctx, ast.Store)]
+    # a refused request (invalid level name) has no effect at all: the level is checked before anything is removed or stored
+    chk = [i for c in calls_in(f.node) if call_name(c) == 'check_level' or call_attr(c) == 'check_level' for i in cfg.node_of(c)]
+    effects = [i for c in pops + dels for i in cfg.node_of(c)] + [i for s2 in stores for i in cfg.node_of(s2)]
+    if chk and effects:
+        ctx.check(all(cfg.dominates(chk, i) for i in effects), f'{f.qualname}:the level is validated before any effect', f.node,
+                  'check_level dominates every removal / store', 'an entry is removed or stored before check_level(level) has accepted the request: a `logging` '
+                  'request with an invalid level is answered with an error, but has already switched the logging of this connection off', f)
     if not offtests:
         ctx.bad(f'{f.qualname}:OFF removes the entry', f.node, 'no `level == OFF` test: switching off leaves the entry in place', f)
         return
